@@ -249,6 +249,15 @@ def gen_text(rng):
     """-> {"segments": [...], "crlf": bool, "family": "sm"|"ssc"}"""
     family = rng.choice(["sm", "ssc"])
     segs = gen_sm_segments(rng) if family == "sm" else gen_ssc_segments(rng)
+    if rng.random() < 0.006:
+        # more than 256 (small) charts after whatever came before
+        for j in range(rng.choice([257, 300])):
+            if family == "sm":
+                segs.append(["param", "NOTES", ["dance-single", "c%d" % j, "Hard", str(j), "0,0", "0000\n0000\n0000\n0000\n"], ";"])
+            else:
+                segs.append(["param", "NOTEDATA", [""], ";"])
+                segs.append(["param", "METER", [str(j)], ";"])
+                segs.append(["param", "NOTES", ["0000\n0000\n0000\n0000\n"], ";"])
     crlf = rng.random() < 0.25
     out = glue(rng, segs, crlf)
     if crlf:
